@@ -13,6 +13,10 @@ pub fn slab_with_size(bytes: usize) -> MatrixSlab {
     MatrixSlab(NonNull::new(ptr).unwrap())
 }
 
+pub fn slab_ptr(s: &MatrixSlab) -> *mut u8 {
+    s.0.as_ptr()
+}
+
 /// K-cell: the two back-pointer bits stored by `set` are exactly what `get` returns.
 #[kani::proof]
 fn c02_matrix_cell_roundtrip() {
